@@ -96,7 +96,9 @@ CLAIMED = {
              'the serialised post-state of the objects are compared with the model; each compile/solve is also compared with a '
              'freshly rebuilt copy.',
         note='optimal values come from ECOS (1e-5 relative, failures inconclusive); CPython pickle trusted; the SAGE '
-             'settings-snapshot clause is checked on the implementation (construct, flip default, compile vs fresh).',
+             'settings-snapshot clause is checked on the implementation (construct, flip default, compile vs fresh); SAGE models over the '
+             'same exponents are interleaved in one process against fresh-process references; F23 (generation mix between objective and '
+             'constraints compiled silently) repaired in /repo (3a96307).',
         technique='Lean 4 proof (induction over operation histories) + model/implementation correspondence check on histories',
         design_ref='DESIGN.md 4/C11'),
     'C01': dict(
@@ -169,20 +171,24 @@ CLAIMED = {
     'C04': dict(
         text='PARTIAL (strong duality is not proved). Theorems about a Lean model of hierarchy_e_k, up_to_q_fold_cons and '
              'make_sig_lagrangian: every folded constraint is a product of at most q inputs, and the Lagrangian identity '
-             'L = f - gamma - sum s_g g - sum z_h h holds as a function for EVERY assignment of gamma and the multiplier coefficients. '
+             'L = f - gamma - sum s_g g - sum z_h h holds as a function for EVERY assignment of gamma and the multiplier coefficients; '
+             'at real points and real assignments the identity plus nonnegative Lagrangian and inequality multipliers give gamma <= f at every '
+             'feasible point (constrained_primal_bound). '
              'The real make_sig_lagrangian output (q-fold sets, alpha_hat, every coefficient of L as an affine form) is compared '
              'exactly with the model; the identity is also checked on the real objects under random assignments; solved constrained '
-             'relaxations are audited against f at sampled feasible points and primal <= dual.',
+             'relaxations are audited against f at sampled feasible points and primal <= dual; the Lagrangian a built Problem exposes in its metadata '
+             'is checked against the identity with the builder\'s own multipliers at every level ell.',
         note='the code collects folded constraints in a Python set (order unspecified): compared as sets; bound theorems for the '
              'constrained builders reuse C03/C01/C02; strong duality observed only.',
         technique='Lean 4 proof (signomial algebra with symbolic coefficients) + model/implementation correspondence check',
         design_ref='DESIGN.md 4/C04'),
     'C19': dict(
-        text='PARTIAL (the sign-based cover presolve is observed, not proved). Theorems about the Lean model of the SAGE row generators '
+        text='PARTIAL (the exclusion of constant-negative indices from covers is observed, not proved). Theorems about the Lean model of the SAGE row generators '
              'with the five settings as inputs: compact and epigraph dual rows have the same feasible set (projection off the epigraph '
              'variables), forced equality of the AGE sum is equivalent to the inequality form exactly because equality is only demanded '
-             'at reached indices, a trivial kernel forces nu = 0 (exact elimination), and soundness (C01/C02) holds for every settings '
-             'combination. The real constructors are run under all 32 settings (thorough) / 8 (quick), given globally and as per-constraint '
+             'at reached indices, a trivial kernel forces nu = 0 (exact elimination), the sign-pattern cover simplification is lossless for nonnegative '
+             'exponents with pairwise distinct rows (every certificate has nu_j = 0 at a dropped index; lossy when the zero row is duplicated, '
+             'proved and reproduced), a single-index cover is trivial, and soundness (C01/C02) holds for every settings combination. The real constructors are run under all 32 settings (thorough) / 8 (quick), given globally and as per-constraint '
              'override, with automatic / full / user covers, and cover helper + rows are compared with the model; ECOS values are '
              'compared across the lattice.',
         note='F16 and F7 repaired in /repo (fadbad9, e1a32de); F10 (default heuristic reduction turns a feasible conditional certificate '
@@ -195,7 +201,8 @@ CLAIMED = {
              'representative is a minorant of p at every real point without zero coordinates, in every orthant, for numeric coefficients and '
              'for EVERY assignment of variable coefficients satisfying the side constraints; covers never contain odd rows; even modulators '
              'are nonnegative; the dual construction admits the signed moment vectors of every real point; a bound valid off the coordinate '
-             'hyperplanes extends to all of R^n. The real sig_rep / create_covers / poly_relaxation / make_poly_lagrangian outputs are '
+             'hyperplanes extends to all of R^n; for the constrained builders the Lagrangian identity at real points of ANY orthant plus nonnegative '
+             'multipliers give gamma <= p at every feasible point (poly_constrained_bound). The real sig_rep / create_covers / poly_relaxation / make_poly_lagrangian outputs are '
              'compared exactly with the model; solved relaxations are audited at points of every orthant including zero coordinates.',
         note='composition with C01/C02/C03 (SAGE soundness, moments) gives the bound; strong duality observed only.',
         technique='Lean 4 proof (real analysis of monomials on orthants, signomial-representative algebra) + model/implementation correspondence check',
